@@ -20,8 +20,18 @@ import sys
 import time
 from concurrent.futures import ThreadPoolExecutor
 
-ROOT = "/verif"
-REPO = "/repo"
+ROOT = os.environ.get("VERIF_ROOT") or os.path.dirname(os.path.dirname(os.path.abspath(__file__)))
+def _repo_path():
+    # a worktree used for parallel development may point at its own copy of the repository
+    p = os.path.join(ROOT, ".repo_path")
+    if os.environ.get("VERIF_REPO"):
+        return os.environ["VERIF_REPO"]
+    if os.path.exists(p):
+        return open(p).read().strip()
+    return "/repo"
+
+
+REPO = _repo_path()
 COQ = os.path.join(ROOT, "coq")
 WORK = os.path.join(ROOT, "work")
 PSH = os.path.join(WORK, "bin", "psh")
@@ -94,7 +104,7 @@ def sync_gomod():
             continue
         keep.append(l)
     out = ("module psh\n\ngo 1.22.6\n\nrequire github.com/elementsproject/peerswap v0.0.0\n\n"
-           "replace github.com/elementsproject/peerswap => /repo\n" + "\n".join(keep) + "\n")
+           "replace github.com/elementsproject/peerswap => " + REPO + "\n" + "\n".join(keep) + "\n")
     p = os.path.join(HARNESS, "go.mod")
     if not os.path.exists(p) or open(p).read() != out:
         open(p, "w").write(out)
@@ -398,7 +408,7 @@ def finish(ctx, prop, proof):
         property_id=pid, tier=ctx.tier, seed=ctx.seed, level="proof",
         coverage=dict(
             obligations=max(obligations, 1), discharged=discharged,
-            checker_cmd="make -C /verif/coq Props/%s.vo && coqc -Q /verif/coq PS Props/%s.v (Print Assumptions per theorem)" % (pid, pid),
+            checker_cmd="make -C <verif>/coq Props/%s.vo && coqc -Q <verif>/coq PS Props/%s.v (Print Assumptions per theorem)" % (pid, pid),
             trusted_base=TRUSTED_BASE + prop.get("trusted_extra", []),
             theorems=theorems,
             forbidden_scan=proof.get("forbidden", []),
